@@ -3,7 +3,7 @@
 # stores /verif/seeded/<name>/{patch.diff,demo_test.go,README.md,meta.json} after confirm_mut.sh succeeded
 N=$1; PROP=$2; PKG=$3; RX=$4; CAUGHT=$5; NEEDS=$6
 D=/verif/seeded/$N; mkdir -p $D
-cp /tmp/mut/$N.diff $D/patch.diff; cp /tmp/mut/${N}_demo_test.go $D/demo_test.go; cp /tmp/mut/$N.md $D/README.md 2>/dev/null
+cp ${MUTDIR:-/tmp/mut}/$N.diff $D/patch.diff; cp ${MUTDIR:-/tmp/mut}/${N}_demo_test.go $D/demo_test.go; cp ${MUTDIR:-/tmp/mut}/$N.md $D/README.md 2>/dev/null
 CONF=$(/verif/tools/confirm_mut.sh $N $D/patch.diff $D/demo_test.go $PKG "$RX" | tail -1)
 python3 - "$N" "$PROP" "$PKG" "$RX" "$CAUGHT" "$NEEDS" "$CONF" <<'PY'
 import sys,json
